@@ -5,6 +5,8 @@
 package model
 
 import (
+	"fmt"
+
 	"github.com/basecomplextech/spec/internal/lang/syntax"
 )
 
@@ -49,10 +51,16 @@ func generateMessageDef(pkg *Package, file *File, name string, fields *Fields) (
 	}
 	def.Message = msg
 
+	// Check the name is unique in the package, explicit definitions can be in other files
+	if _, ok := pkg.DefinitionNames[name]; ok {
+		return nil, fmt.Errorf("%v: duplicate definition %q", file.Path, name)
+	}
+
 	// Add definition to file
 	if err := file.add(msg.Def); err != nil {
 		return nil, err
 	}
+	pkg.DefinitionNames[name] = def
 	return def, nil
 }
 
